@@ -378,6 +378,62 @@ pub fn judge(ctx: &mut Ctx, input: &[u8], tag: &str) -> &'static str {
                 return "accept";
             }
             ctx.add("elements.compared", want.len() as u64);
+            // ---- the data of each unit through the lexer's second entry point (`Tokenizer::new_params`, the way
+            //      parameters are lexed on their own): same elements, same byte ranges
+            for u in &a.units {
+                if u.data.is_empty() {
+                    continue;
+                }
+                let (s0, mut s1) = (u.data[0].span.0, u.data.last().unwrap().span.1);
+                let last = u.data.last().unwrap();
+                if last.kind == DKind::Block && input[last.span.0..].starts_with(b"#0") {
+                    // an indefinite block ends with the NL that terminates the message: it belongs to the element
+                    s1 = (last.a.1 + 1).min(input.len()).max(s1);
+                }
+                let region = &input[s0..s1];
+                let mut tz = Tokenizer::new_params(region);
+                let mut got: Vec<El> = vec![];
+                let mut perr: Option<i16> = None;
+                for _ in 0..2 * u.data.len() + 2 {
+                    match tz.next() {
+                        None => break,
+                        Some(Err(e)) => {
+                            perr = Some(e.get_code());
+                            break;
+                        }
+                        Some(Ok(tok)) => got.push(match tok {
+                            Token::ProgramDataSeparator => El::Comma,
+                            Token::CharacterProgramData(s) => El::Data(DKind::Char, rel(input, s), (0, 0), 0),
+                            Token::DecimalNumericProgramData(s) => El::Data(DKind::Dec, rel(input, s), (0, 0), 0),
+                            Token::DecimalNumericSuffixProgramData(s, x) => El::Data(DKind::DecSuffix, rel(input, s), rel(input, x), 0),
+                            Token::NonDecimalNumericProgramData(v) => El::Data(DKind::NonDec, (0, 0), (0, 0), v),
+                            Token::StringProgramData(s) => El::Data(DKind::Str, rel(input, s), (0, 0), 0),
+                            Token::ArbitraryBlockData(s) => El::Data(DKind::Block, rel(input, s), (0, 0), 0),
+                            Token::ExpressionProgramData(s) => El::Data(DKind::Expr, rel(input, s), (0, 0), 0),
+                            _ => El::Colon,
+                        }),
+                    }
+                }
+                let mut wantp: Vec<El> = vec![];
+                for (k, d) in u.data.iter().enumerate() {
+                    if k > 0 {
+                        wantp.push(El::Comma);
+                    }
+                    wantp.push(match d.kind {
+                        DKind::NonDec => El::Data(d.kind, (0, 0), (0, 0), d.value),
+                        DKind::DecSuffix => El::Data(d.kind, d.a, d.b, 0),
+                        _ => El::Data(d.kind, d.a, (0, 0), 0),
+                    });
+                }
+                ctx.count("params-entry-point.units-compared");
+                if perr.is_some() || got != wantp {
+                    ctx.violation(
+                        "C04:parameter-lexer-entry-point-differs",
+                        jobj(&[("input", jbytes(input)), ("data_region", jbytes(region)), ("error", jstr(&format!("{:?}", perr))), ("library", jstr(&format!("{:?}", got))), ("reference", jstr(&format!("{:?}", wantp)))]),
+                    );
+                    return "accept";
+                }
+            }
             // ---- end to end through Node::run with omnivorous handlers
             if a.units.is_empty() {
                 return "accept";
